@@ -358,10 +358,16 @@ class DefaultOperatorResolver(OperatorResolver):
                     (power_term and power_term.factors[0].token) or Token(),
                     "The right-hand argument of `**` must be a positive integer.",
                 )
-            return OrderedSet(
-                functools.reduce(lambda x, y: x * y, term)
-                for term in itertools.product(*[arg] * int(power_term.factors[0].expr))
-            )
+            # Build the products iteratively (de-duplicating as we go) rather
+            # than enumerating all len(arg)**n combinations; the resulting terms
+            # and their order are identical.
+            terms = OrderedSet(arg)
+            for _ in range(int(power_term.factors[0].expr) - 1):
+                expanded = OrderedSet(x * y for x in terms for y in arg)
+                if [t.factors for t in expanded] == [t.factors for t in terms]:
+                    break  # fixed point reached
+                terms = expanded
+            return terms
 
         def multistage_formula(
             lhs: OrderedSet[Term], rhs: OrderedSet[Term]
